@@ -129,3 +129,24 @@ Proof.
   exists r. split; [exact E|]. intros i mode Hi. exact (C04_get ds TI rt _ cap RT v L vals r i mode H Hi).
 Qed.
 Print Assumptions C04_end_to_end.
+
+(* the key hypothesis of C04_end_to_end in plainer words: data of one variant can only share (offset, type) when
+   both are zero-size, so it is enough that no two zero-size data of ONE type sit at ONE offset of the variant
+   (Link.keys_of_no_zst_twins: data of non-zero size are disjoint - C01 - and one type has one size - C11) *)
+Theorem C04_end_to_end_zst : forall h TI rt cap m, hist_ok h -> pow2_hist h -> rt_ok rt = true ->
+  let b := run h in let ds := b_ds b in
+  (forall v i, In v (b_vs b) -> In i v ->
+     ti_size (TI (d_ty (getd ds i))) = d_size (getd ds i) /\ ti_align (TI (d_ty (getd ds i))) = d_align (getd ds i)) ->
+  max_size (ds, b_vs b) = Some m -> (m <= cap)%N ->
+  forall v, In v (b_vs b) ->
+  (forall i j, In i v -> In j v -> i <> j -> Gen.ty ds i = Gen.ty ds j -> d_size (getd ds i) = 0%N ->
+               Gen.of ds i <> Gen.of ds j) ->
+  forall vid vals, exists r,
+    op_new ds TI rt (max_type_align (ds, b_vs b)) cap vid v vals = Ok (ORecord r, []) /\
+    forall i mode, In i v -> op_get ds TI rt r i mode = Ok (Some (vals i)).
+Proof.
+  intros h TI rt cap m Hh Hp RT b ds HTI Hm Hcap v Hv Hz vid vals.
+  apply (C04_end_to_end h TI rt cap m Hh Hp RT HTI Hm Hcap v Hv).
+  apply (keys_of_no_zst_twins h Hh TI HTI v Hv). exact Hz.
+Qed.
+Print Assumptions C04_end_to_end_zst.
